@@ -902,6 +902,50 @@ Proof.
   rewrite maybe_wait_old. exact Ho'.
 Qed.
 
+(* packets other than a non-empty STAT accept nothing new *)
+Lemma recv_packet_inv_other idx pk st acc :
+  MInv st acc -> (forall s, pk <> PStat (Some s)) -> MInv (recv_packet c dl idx pk st) acc.
+Proof.
+  intros M Hpk. unfold recv_packet. destruct (negb (running st)); [exact M|].
+  assert (X : MInv (match pk with
+                    | PErr => set_out st (Failed idx)
+                    | PFin => set_out st (Drained idx)
+                    | POther => st
+                    | PStat None =>
+                      if r_closed st then set_out st (Panicked idx)
+                      else if is_dead st then set_out st (Failed idx)
+                      else diff_flush c idx (r_old st) (set_flags st true (r_waited st))
+                    | PStat (Some s) => recv_stat c idx s st
+                    | PData id d => recv_data c idx id d st
+                    end) acc).
+  { destruct M as [[G A] Ho]. destruct pk as [[s|]|id d| | |].
+    - exfalso. apply (Hpk s). reflexivity.
+    - destruct (r_closed st); [apply (MInv_stop st); auto; discriminate|].
+      destruct (is_dead st); [apply (MInv_stop st); auto; discriminate|].
+      rewrite Ho. cbn [diff_flush]. split; [|reflexivity].
+      apply (GInv_quiet st _ acc b0 (conj G A)); try (unfold b0; lia); simpl; auto.
+      + apply step_same; [apply (g_wf st acc G)|apply (g_next st acc G)].
+      + repeat split.
+      + apply G.
+    - split; [apply recv_data_inv; split; auto|]. rewrite recv_data_old. exact Ho.
+    - apply (MInv_stop st); auto; discriminate.
+    - apply (MInv_stop st); auto; discriminate.
+    - split; [split|]; auto. }
+  destruct X as [G' Ho']. split; [apply maybe_wait_inv; exact G'|].
+  rewrite maybe_wait_old. exact Ho'.
+Qed.
+
+(* the bookkeeping of ids is no concern of the invariant *)
+Lemma MInv_files st acc files next :
+  MInv st acc -> MInv (set_valid st (r_vstk st) (r_seen st) files next) acc.
+Proof.
+  intros [G Ho]. split; [|exact Ho].
+  apply (GInv_quiet st _ acc b0 G); try (unfold b0; lia); simpl; auto.
+  - apply step_same; [apply (g_wf st acc (proj1 G))|apply (g_next st acc (proj1 G))].
+  - repeat split.
+  - apply (proj1 G).
+Qed.
+
 Lemma recv_loop_inv : forall pks idx st acc,
   MInv st acc -> Forall clean_packet pks -> exists acc', MInv (recv_loop c dl idx pks st) acc'.
 Proof.
